@@ -487,4 +487,11 @@ def run(prog, tier, seed):
         results = results + adopt(T.results(T(c08.rule_sort3, prog, sigs)),
                                   PROP, 'printing a CTL formula in CTL* '
                                   'notation goes through cast_to')
+    # the value a derivation builds is a formula of that logic (typing of
+    # the grammar): a callback that hands back a bare name / tree for some
+    # production makes Parser()(str(f)) something that is not f's class
+    from . import c10
+    results = results + adopt(T.results(T(c10.rule_gr3, prog, G)), PROP,
+                              'the parsed value of a printed form is a '
+                              'formula of the same logic')
     return results, expl, assumptions, T.extra()
